@@ -58,13 +58,21 @@ def scenario(chk, i):
     if kind == 6:
         # serialized tables load
         from . import c15
-        job = tokens.c07_job(chk, rng, i)
+        tbl_args = ()
+        if (i // 9) % 2 == 1:
+            # full / fast tables: other table kinds in the file (yy_nxt rows, the struct table
+            # yy_transition, yy_start_state_list), each with its own allocation when loaded
+            from . import lib as lib_
+            job = tokens.c04_job(chk, rng, 4 * (i // 9))
+            tbl_args = lib_.tables_args(["-CF", "-Cf", "-CFe", "-Cfe"][(i // 18) % 4], 8)
+        else:
+            job = tokens.c07_job(chk, rng, i)
         job["case"]["opts"]["tables_file"] = "s.tbl"
         job["case"]["driver"] = dict(job["case"].get("driver", {}))
         job["case"]["driver"]["init"] = [("open", 0), ("tables",)]
         job["case"]["driver"]["fini"] = [("tables_destroy",)]
-        job["configs"] = [{"flavour": ["nr", "r"][i % 2], "flexargs": ()}]
-        name = "tables_load"
+        job["configs"] = [{"flavour": ["nr", "r"][i % 2], "flexargs": tbl_args}]
+        name = "tables_load" if not tbl_args else "tables_load_full"
     else:
         name, mk = [("delivery", tokens.c03_job), ("start_stack", tokens.c05_job),
                     ("reject", tokens.c07_job), ("stream_edits", tokens.c08_job),
@@ -161,7 +169,7 @@ def alloc_worker1(args):
         feat("alloc_faults")
         ev = events(ro.log)
         injected = "# alloc fault injected" in ro.log
-        if not injected:
+        if not injected and ro.kind not in ("sanitizer", "signal", "timeout", "harness"):
             feat("fault_not_reached")
             continue
         bad = None
@@ -434,7 +442,7 @@ def run(pid, tier):
     chk.extra["allocation_requests_per_scenario"] = ks
     chk.sample({"scenarios": na, "allocation_requests": ks[:10]})
     for k in ("fatal_nomem", "eintr_identical", "eio_reported", "path:stdio_fread", "path:stdio_getc",
-              "path:read2", "path:c99_fread", "scenario:tables_load", "init_error_returns_ok",
+              "path:read2", "path:c99_fread", "scenario:tables_load", "scenario:tables_load_full", "init_error_returns_ok",
               "scenario:buffers", "scenario:reject", "scenario:start_stack", "scenario:start_stack_deep",
               "stack_regrown_in_undisturbed_run", "fatal_buffer_grow", "scenario:buffer_growth", "scenario:reject_regrow"):
         chk.require(k)
